@@ -72,6 +72,10 @@ def c08_seq(tier):
             if tier == 'thorough':
                 out.append(seq(2, 1, 1, [0, 1], ENC=enc, SEQ=s))                               # 14 bits
                 out.append(seq(1, 1, 1, [0, 2], ENC=enc, SEQ=s))                               # 9 bits
+        if enc == 0:
+            out.append(seq(1, 1, 0, [0, 1], ENC=0, SEQ=7))                                     # 6 bits
+            out.append(seq(1, 1, 0, [0, 1, 2], ENC=0, SEQ=7))                                  # 8 bits
+            if tier == 'thorough': out.append(seq(2, 1, 0, [0, 1], ENC=0, SEQ=7)); out.append(seq(1, 2, 0, [0, 0, 1], ENC=0, SEQ=7))
         for s in (2, 3, 4) + ((6,) if enc == 0 else ()):
             out.append(seq(1, 1, 0, [0, 0, 1], ENC=enc, SEQ=s))                                # 8 bits
             if tier == 'thorough' or not (s == 6 or (enc == 1 and s == 3)):                    # those: ~50 s each
